@@ -11,6 +11,7 @@ PROP = {
              "every step every key of the key space is probed; non-trivial = a hit followed by a miss after expiry on the same key, or a "
              "re-store while the old entry's clean-up timer is still pending, or a refusal by the size limit; distinct = canonical JSON of the case"),
     "assumptions": [
+        "the history units count the death of their process (a Go runtime fault inside a plugin, e.g. concurrent map writes during a burst of concurrent calls) as a violation: the history that was running is written to a journal first and becomes the replay",
         "the URL pool holds URLs that differ only in the port of the host part (h.com/a, h.com:8080/a, h.com:9090/a) or in the letter case of the path: they are different URLs, a response stored for one is never an answer for another",
         "the gateway's log level (LOG_LEVEL: off in three cases of eight, else error / info / debug / trace; what is logged is thrown away, what a log statement does to build its arguments happens) is a generated part of every case of TestCachingHistories and TestThrottlingHistories: no answer may depend on it; a failing case reports its level",
         "the key of the statement is (method, URL, values of the payload paths of type path_params; empty = absent); path-parameter values are plain tokens "
@@ -26,8 +27,8 @@ PROP = {
         "free-running bursts are generated only with the 1 MB cache (the size race is exercised deterministically by the suspended-writer pair); config does not change inside a history of the two history units; the unit TestCacheSizeAcrossConfigs interleaves stores under 2-3 caching configurations with different size limits on the one cache the gateway has: after an accepted store under configuration X the replayable body bytes must not exceed X's limit (a limit that shrinks below what is held need not evict)",
     ],
     "units": [
-        {"pkg": "c12", "test": "TestCachingHistories", "quick": 6000, "thorough": 60000, "shards": 16},
-        {"pkg": "c12", "test": "TestThrottlingHistories", "quick": 6000, "thorough": 60000, "shards": 16},
+        {"pkg": "c12", "test": "TestCachingHistories", "quick": 6000, "thorough": 60000, "shards": 16, "crash_is_violation": True},
+        {"pkg": "c12", "test": "TestThrottlingHistories", "quick": 6000, "thorough": 60000, "shards": 16, "crash_is_violation": True},
         {"pkg": "c12", "test": "TestCacheSizeAcrossConfigs", "quick": 3000, "thorough": 30000, "shards": 8},
         {"pkg": "c12", "test": "TestWitnessHeldWriterExceedsCacheSize", "kind": "plain"},
     ],
